@@ -88,6 +88,16 @@ func vpParam(name string) int {
 // vpSymbolic reports whether the harness runs inside the symbolic engine.
 func vpSymbolic() bool { return false }
 
+// vpNativeOnly is an assertion that only the native replay can decide (it needs something
+// the engine has no model of, e.g. the time-zone database). The engine ignores it; natively a
+// failure is recorded as a failed assertion of that label, a success leaves no trace (so that
+// the traces of engine and native run stay comparable).
+func vpNativeOnly(label string, cond bool) {
+	if !cond {
+		vpAssert(label, false)
+	}
+}
+
 // vpReverseMapOrder: in the engine maps are iterated in the opposite order while on; natively
 // Go randomises the order anyway.
 func vpReverseMapOrder(on bool) {}
